@@ -154,7 +154,7 @@ def make_config(prop, seed, tier):
         "faults": r.random() < 0.75,  # restarts / evictions / clock / chunking enabled
         "steps": r.randint(8, 25) if tier == "quick" else r.randint(10, 60),
         # separate configuration (DESIGN.md 2.3(4)): injected ENOSPC/EIO inside write requests
-        "io_faults": prop in ("C01", "C02", "C08") and r.random() < 0.3,
+        "io_faults": prop in ("C01", "C02", "C08", "C15", "C16") and r.random() < 0.3,
         # file mtimes follow the simulated clock, which only moves on clock ops: every
         # write between two of them carries the same timestamp
         "sim_mtime": r.random() < 0.5,
@@ -546,7 +546,10 @@ class HistRun:
                 if self.cfg.get("io_faults") and op["op"] in ("get", "head", "propfind", "report") and self.io_armed < 3 and self.frng.random() < 0.15:
                     op["read_fault"] = {"after": self.frng.randint(1, 30), "errno": self.frng.choice(["EIO", "EMFILE"])}
                     self.io_armed += 1
-                if self.cfg.get("io_faults") and op["op"] in ("put", "post", "delete", "proppatch", "reupload") and self.io_armed < 2 and self.frng.random() < 0.25:
+                # (C15 pins values per acknowledged instruction: the known partial application of a
+                # failing multi-instruction PROPPATCH is left to C01/C08, which name it)
+                if self.cfg.get("io_faults") and op["op"] in ("put", "post", "delete", "proppatch", "reupload") and self.io_armed < (4 if self.prop == "C15" else 2) and self.frng.random() < 0.25 \
+                        and not (self.prop == "C15" and op["op"] == "proppatch" and len(op.get("instrs", [])) > 1):
                     op["fault"] = {"after": self.frng.randint(1, 45), "errno": self.frng.choice(["ENOSPC", "ENOSPC", "EIO"])}
                     self.io_armed += 1
                 return op
